@@ -32,6 +32,7 @@ import (
 	"errors"
 	"fmt"
 	"os"
+	"runtime"
 	"sort"
 	"strings"
 	"sync/atomic"
@@ -1375,6 +1376,73 @@ func init() {
 	}
 }
 
+// reducerProbe is the direct regression case of the repaired finding cancelled_reducer_result_cached
+// (/repo 7d244e9): LocalChecker.ResolveCheck on  doc:1#any = a or b  (both branches can only answer
+// `allowed`) and  doc:1#both = c and d  (both branches can only answer `denied`) under a context that a
+// racing goroutine cancels.  Whatever the timing, the call must answer `allowed` resp. `denied`, or
+// fail; a `denied` resp. `allowed` with a nil error is an invented result (and would be stored by
+// CachedCheckResolver).
+func reducerProbe(ctx context.Context, w *rec.Writer, n int) {
+	s := &scen.Scenario{Shape: "probe-reducers", Types: []scen.TypeDef{{Name: "user"}, {Name: "doc", Rels: []scen.RelDef{
+		{Name: "a", RW: scen.This(), Restr: []scen.Restr{scen.RObj("user")}},
+		{Name: "b", RW: scen.This(), Restr: []scen.Restr{scen.RObj("user")}},
+		{Name: "c", RW: scen.This(), Restr: []scen.Restr{scen.RObj("user")}},
+		{Name: "d", RW: scen.This(), Restr: []scen.Restr{scen.RObj("user")}},
+		{Name: "any", RW: scen.Union(scen.Comp("a"), scen.Comp("b"))},
+		{Name: "both", RW: scen.Inter(scen.Comp("c"), scen.Comp("d"))},
+	}}}, Tuples: []scen.Tuple{{Obj: "doc:1", Rel: "a", User: "user:x"}, {Obj: "doc:1", Rel: "b", User: "user:x"}}}
+	env, err := scen.NewEnv(ctx, s)
+	if err != nil {
+		panic(err)
+	}
+	defer env.Close()
+	resolver, closer := scen.Resolver(scen.NewForcedPlanner("default"), 25)
+	defer closer()
+	base := storage.ContextWithRelationshipTupleReader(typesystem.ContextWithTypesystem(ctx, env.TS), env.DS)
+	call := func(rel string, k int) (bool, error) {
+		cctx, cancel := context.WithCancel(base)
+		defer cancel()
+		req, err := graph.NewResolveCheckRequest(graph.ResolveCheckRequestParams{StoreID: env.StoreID,
+			AuthorizationModelID: env.Model.GetId(), TupleKey: &openfgav1.TupleKey{Object: "doc:1", Relation: rel, User: "user:x"}})
+		if err != nil {
+			panic(err)
+		}
+		go func() {
+			for j := 0; j < k%48; j++ {
+				runtime.Gosched()
+			}
+			cancel()
+		}()
+		r, err := resolver.ResolveCheck(cctx, req)
+		if err != nil {
+			return false, err
+		}
+		return r.GetAllowed(), nil
+	}
+	for k := 0; k < n; k++ {
+		a, err := call("any", k)
+		switch {
+		case err != nil:
+			w.Stat("probe_union_cancelled", 1)
+		case a:
+			w.Stat("probe_union_allowed", 1)
+		default:
+			w.Stat("probe_union_invented_denied", 1)
+			w.PropFail("union(allowed, allowed) under a racing cancellation answered `denied` with a nil error", map[string]any{"probe": "union", "k": k})
+		}
+		a, err = call("both", k)
+		switch {
+		case err != nil:
+			w.Stat("probe_intersection_cancelled", 1)
+		case !a:
+			w.Stat("probe_intersection_denied", 1)
+		default:
+			w.Stat("probe_intersection_invented_allowed", 1)
+			w.PropFail("intersection(denied, denied) under a racing cancellation answered `allowed` with a nil error", map[string]any{"probe": "intersection", "k": k})
+		}
+	}
+}
+
 func b2i(b bool) int {
 	if b {
 		return 1
@@ -1407,6 +1475,14 @@ func main() {
 		}
 		return
 	}
+	probeN := 100000
+	if o.Tier == "thorough" {
+		probeN = 600000
+	}
+	if v := os.Getenv("C08_PROBE"); v != "" {
+		fmt.Sscan(v, &probeN)
+	}
+	reducerProbe(ctx, w, probeN)
 	r := rec.NewRand(o.Seed)
 	for i := 0; i < o.N; i++ {
 		rr := r.Fork()
